@@ -22,6 +22,8 @@ def registry():
     reg["C12"] = lambda: piecelen.make("C12")
     from mc.checks import options
     reg["C20"] = lambda: options.make("C20")
+    from mc.checks import infohash
+    reg["C08"] = lambda: infohash.make("C08")
     return reg
 
 
